@@ -245,7 +245,8 @@ def oracle(ctx, budget):
             n_acc += 1
             for which in ('twin_raw', 'twin_location'):
                 t = r[which]
-                ok = t is not None and t[0] == 'host' and t[1] in hosts
+                # ('base',): a relative reference, i.e. the auth service itself, which is one of the allowed hosts
+                ok = t is not None and ((t[0] == 'host' and t[1] in hosts) or t[0] == 'base')
                 if not ok:
                     cls = 'location-header-error' if t is None else (t[0] if t[0] != 'host' else 'foreign-host')
                     fails.append(Failure(f'{which}:{cls}', f'validate_next_page_url accepts {s!r} but the browser-side parse of '
@@ -270,21 +271,22 @@ def oracle(ctx, budget):
                     # a next-page URL was stored for after the login: it must be one the browser takes to an allowed host
                     stored = ''.join(chr(c) for c in o['session_next'])
                     t = twin_of[stored]
-                    if not (t[0] == 'host' and t[1] in hosts):
-                        fails.append(Failure(f'use:{name}:stores-foreign-next', f'{name} stores next={stored!r} in the session although the browser '
+                    if not ((t[0] == 'host' and t[1] in hosts) or t[0] == 'base'):
+                        fails.append(Failure(f'use:{name}:stores-' + ('foreign-host' if t[0] == 'host' else t[0]), f'{name} stores next={stored!r} in the session although the browser '
                                              f'would take it to {t}', {'string': cps(s), 'repr': repr(s), 'hosts': hosts, 'handler': name},
                                              'HTTP 400', o))
                 if o['outcome'] == 'redirect':
                     t = o['twin']
-                    if not (t[0] == 'host' and (t[1] in hosts or t[1] == idp)):
-                        fails.append(Failure(f'use:{name}:redirects-foreign', f'{name} redirects to {"".join(map(chr, o["location"]))!r} '
+                    if not ((t[0] == 'host' and (t[1] in hosts or t[1] == idp)) or t[0] == 'base'):
+                        fails.append(Failure(f'use:{name}:redirects-' + ('foreign-host' if t[0] == 'host' else t[0]), f'{name} redirects to {"".join(map(chr, o["location"]))!r} '
                                              f'(browser host {t}) for next={s!r}', {'string': cps(s), 'repr': repr(s), 'hosts': hosts, 'handler': name},
                                              'redirect to an allowed host or HTTP 400', o))
     by = {}
     for f in fails:
         if f.key not in by or len(f.case['string']) < len(by[f.key].case['string']):
             by[f.key] = f
-    return list(by.values()), {'evaluations': n, 'distinct_nontrivial': n_acc, 'histograms': {'handler_strings': len(hstrings)},
+    ordered = sorted(by.values(), key=lambda f: (0 if 'foreign-host' in f.key else 1, f.key))
+    return ordered, {'evaluations': n, 'distinct_nontrivial': n_acc, 'histograms': {'handler_strings': len(hstrings)},
                                'rule': 'oracle: strings accepted by the real validate_next_page_url (non-trivial), raw and as Location header of the real '
                                        'aiohttp HTTPFound, parsed by the WHATWG twin'}
 
